@@ -27,6 +27,13 @@ PID = 'C16'
 GEN_KW = {'n_cells': 9, 'features': ['names', 'array']}
 
 
+def make_wb(s):
+    """One workbook in three has sheet titles with asymmetric case mappings."""
+    if s % 3 == 0:
+        return G.make(s, sheets=G.LAYOUT_CASE, **GEN_KW)
+    return G.make(s, **GEN_KW)
+
+
 def ovset_for(g, s):
     rnd = random.Random(s * 53 + 7)
     consts = [i for i, c in g.cells.items() if c['k'] == 'c']
@@ -118,7 +125,7 @@ def _work(item):
     import openpyxl
     from formulas.excel import BOOK
     s, sem, sem_ov = item['seed'], item['sem'], item['sem_ov']
-    g = G.make(s, **GEN_KW)
+    g = make_wb(s)
     ovset = ovset_for(g, s)
     res = {'seed': s, 'problems': [], 'n': 0}
     d = tempfile.mkdtemp(prefix='verif-c16-')
@@ -198,7 +205,7 @@ def main():
     seeds = [base + i for i in range(n)]
     wd = workdir('c16')
     try:
-        gens = {s: G.make(s, **GEN_KW) for s in seeds}
+        gens = {s: make_wb(s) for s in seeds}
         cases = []
         for s in seeds:
             g = gens[s]
